@@ -131,12 +131,12 @@ func (m *Machine) raceAccess(g *G, key interface{}, write bool, in ssa.Instructi
 		if write {
 			kind = "write"
 		}
-		panic(stopPath{&PathEnd{Kind: "race", Msg: fmt.Sprintf("DATA RACE: %s at %s by g%d conflicts with write at %s by g%d", kind, m.pos(in), g.id, r.wPos, r.wG)}})
+		panic(stopPath{&PathEnd{Kind: "race", Msg: fmt.Sprintf("DATA RACE: %s at %s conflicts with write at %s in another goroutine", kind, m.pos(in), r.wPos)}})
 	}
 	if write {
 		for rg, clk := range r.reads {
 			if rg != g.id && vcGet(g.vc, rg) < clk {
-				panic(stopPath{&PathEnd{Kind: "race", Msg: fmt.Sprintf("DATA RACE: write at %s by g%d conflicts with read at %s by g%d", m.pos(in), g.id, r.rdPos[rg], rg)}})
+				panic(stopPath{&PathEnd{Kind: "race", Msg: fmt.Sprintf("DATA RACE: write at %s conflicts with read at %s in another goroutine", m.pos(in), r.rdPos[rg])}})
 			}
 		}
 		r.wG, r.wClk, r.wPos = g.id, g.vc[g.id], m.pos(in)
